@@ -3559,13 +3559,13 @@ def run(ctx):
                 "instances constructed one by one right before their first use in 40-70% of the histories with >= 2 instances (else all up front), in 30% "
                 "class attributes are assigned between setups at 7% of the ops (tunable replaced by one of the same topic type with another default / "
                 "writeDefault / subtable, tunable added, plain value over a tunable), 80% followed by the setup of an instance of that class; "
-                "LOOP CASES (%d per run, one robot process each): 1-3 components (1-2 generated classes) of a real MagicRobot built with robotInit(); 3-7 passes "
-                "(robot.teleopPeriodic(); robot._enabled_periodic() 80%% / robot._do_periodics() 20%%) in which the components assign and read their own (75%%) and each "
+                "LOOP CASES (" + str(nloop) + " per run, one robot process each): 1-3 components (1-2 generated classes) of a real MagicRobot built with robotInit(); 3-7 passes "
+                "(robot.teleopPeriodic(); robot._enabled_periodic() 80% / robot._do_periodics() 20%) in which the components assign and read their own (75%) and each "
                 "other's tunables from inside execute(), a @feedback getter and teleopPeriodic(), interleaved with dashboard writes issued during the same pass through "
-                "a separate publisher (22%% of the in-pass steps are: dashboard update, [clock step], assignment of the same tunable, read) and between passes, "
-                "pre-published values, paused clock 50%%, client timestamps same/now 20%%; "
+                "a separate publisher (22% of the in-pass steps are: dashboard update, [clock step], assignment of the same tunable, read) and between passes, "
+                "pre-published values, paused clock 50%, client timestamps same/now 20%; "
                 "non-trivial = >=2 setups and "
-                "all four of PyWrite, PyRead, NtWrite, NtRead occur; distinct up to the per-case name tag" % nloop,
+                "all four of PyWrite, PyRead, NtWrite, NtRead occur; distinct up to the per-case name tag",
         "exhaustive": False,
         "exhaustive_parts": ["type grid: all %d points of Model.grid_decls (159 defaults x (no hint + 237 hints))%s"
                              % (len(grid), " (point i written in spelling i mod %d)" % len(GRID_COMBOS) if quick
